@@ -19,13 +19,14 @@ def SPEC(tier):
 META = dict(
     technique='structured + random generated-input search (choice-sequence PBT) against a long-double great-arc reference model with analytic, conditioning-aware forward-error bounds; metamorphic symmetry slerp(x,y,a)=+-slerp(y,x,1-a); '
               'VALUE comparison against x*(1-a)+y*a evaluated in T for the affine lerp overloads; Shoemake formula / composed arc model for intermediate / squad; float sweep (exhaustive in the thorough tier) for gtx isfinite',
-    text='Search, not proof: 24 targets (12 groups x float/double), 0.5-2.5x10^6 cases each in the quick tier and 2-5x10^7 in the thorough tier, concentrated where the implementation changes behaviour (linear fallback at '
+    text='Search, not proof: 24 targets (12 groups x float/double), 0.5-2.5x10^6 cases each in the quick tier and 4-10x10^7 in the thorough tier, concentrated where the implementation changes behaviour (linear fallback at '
          'cos(theta) > 1-eps, sign flip at dot = 0, nearly parallel and nearly antipodal pairs down to 1e-9 rad, a outside [0,1], spin counts -3..3). Each geometric clause of the statement (unit length, in-plane, angle = a*theta, '
          'end points, no NaN, symmetry) is a separate comparison with its own failure key and its own observed-error/bound metric (max 0.24 over seeds 1-5 and the thorough tier on the unchanged tree), so the bounds are neither vacuous nor flaky. '
          '47 source mutations of the anchored functions (3 planned + 44 own) were all reported by the quick tier, except one mutant that is equivalent on the generated domain.',
     note='Trusts engine/ref/refslerp.hpp (long double arc model, quaternion log/exp) and the error analysis written next to arc_tol; pure (non-SIMD) g++ -O2 build with -ffp-contract=off, default qualifier only. '
          'Comparisons whose bound exceeds 0.05 rad decide nothing (counted as ill-conditioned): mix next to antipodal inputs (where it also returns NaN when the rounded dot is below -1; the statement asks finiteness of slerp only) and '
          'slerp-with-spins next to parallel inputs (bound ~ u/sin^2 theta; around the fallback threshold either branch is accepted). lerp is only called with a in [0,1] (assert). shortMix is held to its documented '
-         'short-path / end-point / unit-length contract, not to constant speed. Two failure classes fire on the pinned tree: slerp(x,y,a,k) ignores k below the linear-fallback threshold (keys slerp-spin/*:slerp-spin/*/spins-lost/below-linear-threshold) '
-         'and intermediate() returns the zero quaternion when its exponential argument is below epsilon because glm::exp returns a value-initialised qua (keys intermediate/*:intermediate/*/exp-argument-below-epsilon).',
+         'short-path / end-point / unit-length contract, not to constant speed. One failure class fires on the current tree: slerp(x,y,a,k) ignores k below the linear-fallback threshold (keys slerp-spin/*:slerp-spin/*/spins-lost/below-linear-threshold). '
+         'A second one, intermediate() returning the zero quaternion when its exponential argument is below epsilon (glm::exp returned a value-initialised qua; keys intermediate/*:intermediate/*/exp-argument-below-epsilon), '
+         'fired until /repo commit 5cccc32 corrected glm::exp and is kept as a regression check.',
     design='6/C13')
